@@ -376,3 +376,13 @@ func Interpret(src string, o Opts) ([]interface{}, Outcome) {
 
 // ConvertDigits exposes utils.ConvertBanglaDigitsToASCII.
 func ConvertDigits(s string) string { return utils.ConvertBanglaDigitsToASCII(s) }
+
+// GlobalNames lists the names the implementation binds at program level before the first statement
+// of a program runs (observed while an empty program is executed).
+func GlobalNames() []string {
+	verifrt.GlobalNames = nil
+	verifrt.RecordGlobals = true
+	RunFile("", Opts{})
+	verifrt.RecordGlobals = false
+	return append([]string{}, verifrt.GlobalNames...)
+}
